@@ -12,6 +12,7 @@ import (
 	"hash/maphash"
 	"math"
 	"math/rand"
+	"sort"
 	"strings"
 	"time"
 
@@ -469,6 +470,14 @@ func famHash(dir string, seed int64, tier string) {
 			shapes = append(shapes, named(str, tk(sb.KindInt, 1)), arr(tk(sb.KindString, strings.Repeat("s", n-1)+"f")))
 		}
 	}
+	// compounds with more children than fit one pooled buffer of child digests (32 KiB / 32 bytes = 1024, / 16 = 2048)
+	for _, wn := range []int{1023, 1024, 1025, 2049, 3000} {
+		var kids []*gval
+		for i := 0; i < wn; i++ {
+			kids = append(kids, tk(sb.KindInt, i))
+		}
+		shapes = append(shapes, arr(kids...), arr(tk(sb.KindString, "head"), arr(kids...), tk(sb.KindInt, -1)))
+	}
 	// nesting deeper than a preallocated frame stack (33, 65, 129 levels), a sibling beside every nested value
 	for _, d := range []int{32, 33, 34, 65, 66, 130} {
 		v := tk(sb.KindInt, 0)
@@ -626,6 +635,14 @@ func famHash(dir string, seed int64, tier string) {
 
 		// ---- trees ----
 		f := hashFns[n%2]
+		if goOnly {
+			// the big / wide / deep shapes do not go to the model: use the functions the model does not cover
+			// (sha256 with its 32-byte digest, the salted constructor whose fresh state is not its Reset state)
+			f = hashFns[2]
+			if n%2 == 1 {
+				f = hashFns[len(hashFns)-1]
+			}
+		}
 		trP, eP := buildTree(ts, nil)
 		trW, eW := buildTree(ts, &f)
 		repT.Evaluations += 2
@@ -657,6 +674,7 @@ func famHash(dir string, seed int64, tier string) {
 			if eW == nil {
 				// hashes attached to nodes equal the hash of the sub-stream rooted there
 				if msg := checkNodeHashes(trW.tree, it.v, f); msg != "" {
+					repH.violate("C09", "withhash-node-differs", "a tree built with WithHash: "+msg, tdesc)
 					repT.violate("C12", "node-hash-wrong", msg, tdesc)
 				}
 			}
@@ -672,12 +690,19 @@ func famHash(dir string, seed int64, tier string) {
 		var finds []string
 		var keys [][]byte
 		if it.v != nil {
-			for _, sv := range it.v.subvalues(nil) {
-				keys = append(keys, refMhash(f, sv))
+			svs := it.v.subvalues(nil)
+			if len(svs) > 12 {
+				// the whole value and the sub-values with the most direct children always; the rest sampled
+				keep := []*gval{svs[0]}
+				rest := append([]*gval{}, svs[1:]...)
+				sort.SliceStable(rest, func(i, j int) bool { return len(rest[i].items) > len(rest[j].items) })
+				keep = append(keep, rest[:3]...)
+				rest = rest[3:]
+				r.Shuffle(len(rest), func(i, j int) { rest[i], rest[j] = rest[j], rest[i] })
+				svs = append(keep, rest[:8]...)
 			}
-			if len(keys) > 12 {
-				r.Shuffle(len(keys), func(i, j int) { keys[i], keys[j] = keys[j], keys[i] })
-				keys = keys[:12]
+			for _, sv := range svs {
+				keys = append(keys, refMhash(f, sv))
 			}
 		}
 		nreal := len(keys)
@@ -712,6 +737,14 @@ func famHash(dir string, seed int64, tier string) {
 		// ---- references ----
 		if it.v != nil && eP == nil {
 			refsFor(repR, wR, r, ts, it.v, f, tdesc, thorough)
+			// the same with the functions outside the model (Go oracles only), on every fifth value
+			if !goOnly && n%5 == 0 && len(ts) < 40 {
+				goOnly = true
+				for _, fi := range []int{2, len(hashFns) - 1} {
+					refsFor(repR, wR, r, ts, it.v, hashFns[fi], "H="+hashFns[fi].name+" "+desc, thorough)
+				}
+				goOnly = false
+			}
 		}
 	}
 	wH.flush()
